@@ -287,3 +287,65 @@ Definition C20_check (c : C20_case) : verdict :=
       | None => OK
       end
   end.
+
+(* ---- hook client metrics (harness/inpkg/metrics) ------------------------------------------ *)
+
+Record C20m_obs := mkMObs {
+  mo_outcome : outcome;       (* InstrumentClientWithConstLabels returned a client | an error | panicked *)
+  mo_collector : Z;           (* which instrumentation the client was built on (numbered by first appearance); -1: none *)
+  mo_expires : bool;          (* the cache entry of the key has a finite life (false also when there is no entry) *)
+  mo_cached : bool            (* the cache holds an entry for the key afterwards *)
+}.
+
+Record C20m_case := mkC20m {
+  cm_steps : list (mevent * C20m_obs)
+}.
+
+(* the property on the implementation alone: keys registered so far with their collector *)
+Fixpoint mprop_walk (seen : list (mkey * Z)) (steps : list (mevent * C20m_obs)) : option string :=
+  match steps with
+  | [] => None
+  | (MElapse, o) :: rest =>
+      match o with
+      | mkMObs ROk _ _ _ => mprop_walk seen rest
+      | _ => Some "metrics-elapse-failed"
+      end
+  | (MReg k, o) :: rest =>
+      match mo_outcome o with
+      | RPanic => Some "metrics-registration-panics"
+      | RErr => match mfind k seen with
+                | Some _ => Some "metrics-registration-fails-on-restart"
+                | None => Some "metrics-registration-fails"
+                end
+      | ROk =>
+          if mo_expires o then Some "metrics-cache-entry-expires" else
+          if negb (mo_cached o) then Some "metrics-not-cached" else
+          match mfind k seen with
+          | Some id => if Z.eqb id (mo_collector o) then mprop_walk seen rest
+                       else Some "metrics-collector-not-reused"
+          | None => mprop_walk ((k, mo_collector o) :: seen) rest
+          end
+      end
+  end.
+
+Fixpoint mmodel_walk (st : mstate) (steps : list (mevent * C20m_obs)) : option string :=
+  match steps with
+  | [] => None
+  | (e, o) :: rest =>
+      let '(st', out, col) := mstep st e in
+      if negb (outcome_eqb out (mo_outcome o)) then Some "metrics-outcome" else
+      if negb (Z.eqb (match col with Some id => id | None => (-1)%Z end)
+                     (match e with MReg _ => mo_collector o | MElapse => (-1)%Z end))
+      then Some "metrics-collector" else
+      mmodel_walk st' rest
+  end.
+
+Definition C20m_check (c : C20m_case) : verdict :=
+  match mprop_walk [] (cm_steps c) with
+  | Some clause => PROPFAIL clause
+  | None =>
+      match mmodel_walk minit (cm_steps c) with
+      | Some where_ => DIVERGE where_
+      | None => OK
+      end
+  end.
